@@ -4,7 +4,7 @@
 # the patch, the crate's own tests still pass with the patch; then runs ./check (isolated) against it.
 # On success copies the seed to /verif/seeded/<Cxx>-<n>/ with a meta.json skeleton.
 P=$1; N=$2; CRATE=$3; PROP=${4:-$P}
-SRC=/tmp/seed/$P/out
+SRC=${SEEDROOT:-/tmp/seed}/$P/out
 W=/tmp/sc/$P-$N
 rm -rf $W; mkdir -p /tmp/sc
 git -C /repo worktree add --detach $W HEAD >/dev/null 2>&1 || exit 9
